@@ -66,7 +66,13 @@ def nothing_after_body(chk, prog, rid, cfg=None):
         for (b2, t2, d2, fb2) in sites:
             if b2 in after and b2 != b and describe(prog, body, t2["args"][0]) == recv:
                 what = d2[1] if d2 and d2[0] == "lit" else d2
-                chk.ob(rid, f, f"append after body: {t2['callee'].split('::')[-1]}({what!r})", False,
+                if not isinstance(what, (bytes, str)):
+                    # a named constant / reference to one: use its bytes when they are known
+                    from .. import byteset
+                    cb = byteset.const_bytes(d2) if d2 is not None else None
+                    what = bytes(cb) if cb is not None else what
+                # (keyed by the bytes appended, not by which Vec method appends them)
+                chk.ob(rid, f, f"append after body: {what!r}", False,
                        f"bytes {what!r} are appended after the body: the message is longer than its Content-Length "
                        f"and the surplus is read as the start of the next response on a kept-alive connection",
                        where=body.where(b2), cfg=cfg)
